@@ -294,6 +294,7 @@ func runC12(c *Ctx) {
 	// hasNext decides between the separating and the closing boundary: the counters behind it (C13/accounting)
 	c13Accounting(c)
 	deferredCounterCompared(c)
+	layoutAgreement(c)
 }
 
 // writerSpawn: a goroutine started (directly or in a same-package helper) by a transport's Do that can reach the ResponseWriter.
